@@ -172,7 +172,8 @@ class PydanticConverter:
         )
 
     def convert_inputs(self, data: str) -> Params:
-        loaded = dict(self.input_pydantic_model.model_validate_json(data))
+        # a job enqueued without arguments has an empty payload
+        loaded = dict(self.input_pydantic_model.model_validate_json(data or "{}"))
 
         if self.args:
             return ([loaded.pop(arg) for arg in self.args], loaded)
@@ -211,7 +212,7 @@ class PydanticV1Converter(PydanticConverter):  # pragma: no cover
         )
 
     def convert_inputs(self, data: str) -> Params:
-        loaded = dict(self.input_pydantic_model.parse_raw(data))
+        loaded = dict(self.input_pydantic_model.parse_raw(data or "{}"))
 
         if self.args:
             return ([loaded.pop(arg) for arg in self.args], loaded)
